@@ -4,7 +4,8 @@
 (*  DecodeSelector   protocols/base.py __init__ + slashnormalize; http.py/gemini.py/        *)
 (*                   spartan.py handle(): cut at "?", percent-decode ONCE, THEN normalise   *)
 (*  StatSel          HandlerMultiplexer.getHandler: os.stat(root + selector) BEFORE any     *)
-(*                   filter ("StatBeforeFilter"); only OSError is swallowed ("NulRaises")   *)
+(*                   filter ("StatBeforeFilter"); the pinned code swallowed OSError only, so *)
+(*                   the ValueError for a NUL escaped ("NulRaises"; repaired in deb1f92)    *)
 (*  IsSecure         handlers/base.py isrequestsecure: six forbidden substrings             *)
 (*  UrlShaped/UrlSecure  handlers/url.py: own, weaker filter; never touches the file system *)
 (*  VSplit           handlers/virtual.py: split at the first "?" else the first "|" and     *)
@@ -13,9 +14,11 @@
 (*  Dispatch         first handler of the configured list with IsSecure /\ its own test;    *)
 (*                   ZIPHandler re-dispatches the same selector on the archive's in-memory  *)
 (*                   index; URLTypeRewriter re-dispatches selector[2:] on the real tree     *)
-(*  RealOnlyGuard    mbox/pyg/scriptexec test isinstance(self.vfs, VFS_Real); VFSZip IS a   *)
-(*                   subclass ("ZipCountsAsReal"): such a handler then hands the archive-   *)
-(*                   internal RELATIVE path to the operating system                         *)
+(*  RealOnlyGuard    mbox/pyg/scriptexec must only act on the real tree; the pinned code     *)
+(*                   tested isinstance(self.vfs, VFS_Real), which a VFSZip (a subclass)     *)
+(*                   passes ("ZipCountsAsReal"): such a handler then hands the archive-     *)
+(*                   internal RELATIVE path to the operating system.  Repaired in /repo     *)
+(*                   (0db1dbc: exact type test); the probe now binds ZipCountsAsReal=FALSE  *)
 (*                                                                                          *)
 (* Deviations of the code from the ideal are constants bound from the working tree by       *)
 (* probes in harness/c01.py (binding B1), never idealised away.                             *)
@@ -187,11 +190,12 @@ Remove(list, x) == SelectSeq(list, LAMBDA y : y # x)
 Range(f) == {f[i] : i \in DOMAIN f}
 
 \* what MaildirMessageHandler / MBoxMessageHandler answer on the real tree for message 1
-MaildirMsgResp(s) == IF s.k = "none" THEN "noreply"                 \* NoSuchMailboxError
+\* (a mailbox that does not exist / has no such message is FileNotFound since the fix for C03)
+MaildirMsgResp(s) == IF s.k = "none" THEN "notfound"                \* NoSuchMailboxError
                      ELSE IF s.f = "maildir" THEN "ok" ELSE "ioerror"
-MboxMsgResp(s)    == IF s.k = "none" THEN "noreply"
+MboxMsgResp(s)    == IF s.k = "none" THEN "notfound"
                      ELSE IF s.k = "dir" THEN "ioerror"             \* open(.., "rb+") on a directory
-                     ELSE IF s.f = "mbox" THEN "ok" ELSE "noreply"  \* StopIteration: no such message
+                     ELSE IF s.f = "mbox" THEN "ok" ELSE "notfound" \* StopIteration: no such message
 
 RECURSIVE Dispatch(_, _, _, _)
 Dispatch(d, list, vfs, all) ==
@@ -214,12 +218,12 @@ Dispatch(d, list, vfs, all) ==
           CASE h = "HTMLURLHandler"        -> UrlShaped(d) /\ UrlSecure(d)
             [] h = "BuckGophermapHandler"  -> sec /\ ((s0.k = "dir" /\ gm.k = "file") \/ (s0.k = "file" /\ EndsWithQ(d, qDotGophermap)))
             [] h = "MaildirFolderHandler"  -> sec /\ RealOnlyGuard(vfs) /\ v.args = <<>> /\ sv.k = "dir" /\ mdn.k = "dir" /\ mdc.k = "dir"
-            [] h = "MaildirMessageHandler" -> sec /\ MsgArg(v.args, qMaildirMsg)
+            [] h = "MaildirMessageHandler" -> sec /\ vfs = "real" /\ MsgArg(v.args, qMaildirMsg)
             [] h = "UMNDirHandler"         -> sec /\ s0.k = "dir"
             [] h = "DirHandler"            -> sec /\ s0.k = "dir"
             [] h = "TALFileHandler"        -> sec /\ s0.k = "file" /\ EndsWithQ(d, qTal)
             [] h = "HTMLFileTitleHandler"  -> sec /\ s0.k = "file" /\ (EndsWithQ(d, qHtml) \/ EndsWithQ(d, qHtm))
-            [] h = "MBoxMessageHandler"    -> sec /\ MsgArg(v.args, qMboxMsg)
+            [] h = "MBoxMessageHandler"    -> sec /\ vfs = "real" /\ MsgArg(v.args, qMboxMsg)
             [] h = "MBoxFolderHandler"     -> sec /\ RealOnlyGuard(vfs) /\ v.args = <<>> /\ sv.k = "file" /\ sv.f = "mbox"
             [] h = "PYGHandler"            -> sec /\ RealOnlyGuard(vfs) /\ sv.k = "file" /\ sv.f = "exec" /\ EndsWithQ(v.real, qPyg)
             [] h = "ExecHandler"           -> sec /\ RealOnlyGuard(vfs) /\ sv.k = "file" /\ sv.f = "exec"
